@@ -104,7 +104,16 @@ var props = map[string]*propDef{}
 func init() {
 	props["C01"] = crawlProp("exploration", crawlRule, 160, 6000, scen.CrawlOpts{Prop: "C01", MinSeeds: 1, MaxSeeds: 8, Faults: true, Hops: true, Adversarial: true})
 	props["C02"] = crawlProp("exploration", crawlRule, 160, 6000, scen.CrawlOpts{Prop: "C02", MinSeeds: 1, MaxSeeds: 6, Faults: true, BodyVariety: true})
-	props["C06"] = crawlProp("exploration", crawlRule, 160, 6000, scen.CrawlOpts{Prop: "C06", MinSeeds: 1, MaxSeeds: 6, Faults: true, Hops: true, Adversarial: true})
+	c06crawl := crawlProp("exploration", crawlRule, 160, 6000, scen.CrawlOpts{Prop: "C06", MinSeeds: 1, MaxSeeds: 6, Faults: true, Hops: true, Adversarial: true})
+	props["C06"] = &propDef{level: "exploration", rule: crawlRule + "; every fourth case crawls generated JSON / XML / RSS / sitemap / M3U8 documents instead, whose links must be queued with the parent's hops + 1", assumptions: e2eAssumptions, components: e2eComponents, quickRuns: 200, thorRuns: 8000,
+		gen: func(t *scen.Tape, i int, tier string) *scen.Scenario {
+			if i%4 == 3 {
+				sc := scen.GenDocs(t, false)
+				sc.Prop = "C06"
+				return sc
+			}
+			return c06crawl.gen(t, i, tier)
+		}}
 	props["C05"] = &propDef{level: "exploration", rule: "one case = one generated (filter set, web site) pair: include/exclude host, string and regex filters x URL texts (absolute, upper-case, scheme-relative, userinfo, explicit port, fragment, other schemes, loopback, dot-less, archive.org) planted as seeds, redirect targets and assets, run under one seeded schedule; every request and every dial that reaches the simulated network is judged by a reference scope predicate; distinct/non-trivial as for C01", assumptions: append([]string{"the deciding power is the generator of URL texts x filters; schedules add little for this property (stated in DESIGN.md)"}, e2eAssumptions...), components: e2eComponents, quickRuns: 240, thorRuns: 8000,
 		gen: func(t *scen.Tape, i int, tier string) *scen.Scenario {
 			if i%4 == 3 {
